@@ -16,6 +16,7 @@
 //!
 //! ## State per case
 //! * Config: marker kind `simple` (`SimpleMarker<Tag>` + `SimpleMarkerAllocator<Tag>`) or `uuid` (`UuidMarker` + `UuidMarkerAllocator`);
+//!   (`uuidapp`: as `uuid`, but world A's markers get application-chosen ids `Uuid::from_u128(0), (1), ..` registered with `allocate(e, Some(id))`)
 //!   data format `json` (serde_json) or `ron` (ron 0.8). Default `simple json`. Set by an op line `cfg <simple|uuid> <json|ron>` (result `ok`);
 //!   `cfg` resets both worlds, logs, data slots, uuid name table (so it is normally the first op of a case).
 //! * Two worlds `A`, `B` (`specs::World`, `WorldExt::new()`), each with components `P`, `R`, `E` and the marker type registered
@@ -210,6 +211,9 @@ trait MK: Marker + Send + Sync + 'static {
     /// (`idx` token, `map` token) of `dump`
     fn alloc_dump(world: &World) -> (String, String);
     fn idx_hint(world: &World, names: &Vec<String>) -> u64;
+    /// `cfg uuidapp`: the application chooses the ids itself, counting from 0 (so the first one is the nil uuid), inserts
+    /// `UuidMarker::new(id)` itself and registers it with `allocate(e, Some(id))`. `None` for marker kinds without that mode.
+    fn app_marker(_alloc: &mut Self::Allocator, _e: Entity, _n: u64) -> Option<(Self, String)> { None }
 }
 
 /// Parses `SimpleMarkerAllocator { index: 2, mapping: {1: Entity(1, Generation(1)), ..}, _phantom_data: .. }`.
@@ -292,6 +296,13 @@ impl MK for UuidMarker {
     }
     fn idx_hint(_: &World, names: &Vec<String>) -> u64 {
         names.len() as u64
+    }
+    fn app_marker(alloc: &mut UuidMarkerAllocator, e: Entity, n: u64) -> Option<(Self, String)> {
+        use specs::saveload::MarkerAllocator as _;
+        let id = uuid::Uuid::from_u128(n as u128);
+        // the application's own marker goes into the storage; `allocate(e, Some(id))` only tells the allocator about it
+        let _ = alloc.allocate(e, Some(id));
+        Some((UuidMarker::new(id), format!("{}", id)))
     }
 }
 
@@ -422,7 +433,7 @@ enum EV {
 
 #[derive(Clone, Debug, PartialEq)]
 enum Op {
-    Cfg { uuid: bool, ron: bool },
+    Cfg { uuid: bool, ron: bool, app: bool },
     Create(usize, bool),
     SetP(usize, usize, Option<i32>),
     SetR(usize, usize, Option<(usize, usize)>),
@@ -450,7 +461,7 @@ fn wn(w: usize) -> &'static str {
 fn show_op(op: &Op) -> String {
     match op {
         Op::UnitRoundtrip => "unit_roundtrip".to_string(),
-        Op::Cfg { uuid, ron } => format!("cfg {} {}", if *uuid { "uuid" } else { "simple" }, if *ron { "ron" } else { "json" }),
+        Op::Cfg { uuid, ron, app } => format!("cfg {} {}", if *uuid { if *app { "uuidapp" } else { "uuid" } } else { "simple" }, if *ron { "ron" } else { "json" }),
         Op::Create(w, atomic) => format!("create {} {}", wn(*w), if *atomic { "atomic" } else { "now" }),
         Op::SetP(w, k, Some(v)) => format!("setp {} @{} {}", wn(*w), k, v),
         Op::SetP(w, k, None) => format!("setp {} @{} -", wn(*w), k),
@@ -500,7 +511,8 @@ fn parse_op(line: &str) -> Option<Op> {
     Some(match ts.as_slice() {
         ["unit_roundtrip"] => Op::UnitRoundtrip,
         ["cfg", m, f] => Op::Cfg {
-            uuid: match *m { "simple" => false, "uuid" => true, _ => return None },
+            uuid: match *m { "simple" => false, "uuid" | "uuidapp" => true, _ => return None },
+            app: *m == "uuidapp",
             ron: match *f { "json" => false, "ron" => true, _ => return None },
         },
         ["create", w, "now"] => Op::Create(pw(w)?, false),
@@ -660,6 +672,8 @@ struct Exec<M: MK> {
     slots: Vec<String>,
     names: Vec<String>,
     texts: Vec<String>,
+    /// `cfg uuidapp`: world A's markers get application-chosen ids 0, 1, 2, .. (see `MK::app_marker`)
+    app_ids: bool,
     _m: PhantomData<M>,
 }
 
@@ -687,6 +701,7 @@ impl<M: MK> Exec<M> {
             slots: Vec::new(),
             names: Vec::new(),
             texts: Vec::new(),
+            app_ids: false,
             _m: PhantomData,
         }
     }
@@ -758,6 +773,14 @@ impl<M: MK> Exec<M> {
                 let world = &self.worlds[*w];
                 let mut alloc = world.write_resource::<M::Allocator>();
                 let mut st = world.write_storage::<M>();
+                if self.app_ids && !st.contains(e) && world.entities().is_alive(e) {
+                    let n = self.names.len() as u64;
+                    if let Some((m, name)) = M::app_marker(&mut alloc, e, n) {
+                        self.names.push(name);
+                        st.insert(e, m.clone()).unwrap();
+                        return format!("m {} new", m.mid(&mut self.names));
+                    }
+                }
                 match alloc.mark(e, &mut st) {
                     Some((m, new)) => { let id = m.mid(&mut self.names); format!("m {} {}", id, if new { "new" } else { "old" }) }
                     None => "none".into(),
@@ -866,8 +889,8 @@ impl<M: MK> Runner for Exec<M> {
     }
 }
 
-fn make_runner(uuid: bool, ron: bool) -> Box<dyn Runner> {
-    if uuid { Box::new(Exec::<UuidMarker>::new(ron)) } else { Box::new(Exec::<SM>::new(ron)) }
+fn make_runner(uuid: bool, ron: bool, app: bool) -> Box<dyn Runner> {
+    if uuid { let mut e = Exec::<UuidMarker>::new(ron); e.app_ids = app; Box::new(e) } else { Box::new(Exec::<SM>::new(ron)) }
 }
 
 /// Unit-struct component (serialises as serde's unit struct).
@@ -936,13 +959,13 @@ struct Harness {
 
 impl Harness {
     fn new(show_text: bool) -> Self {
-        Harness { runner: make_runner(false, false), show_text, ron: false }
+        Harness { runner: make_runner(false, false, false), show_text, ron: false }
     }
     /// executes one op, appends its transcript line, returns the result tokens
     fn step(&mut self, op: &Op, out: &mut String) -> String {
         *WD_BUSY.lock().unwrap() = Some((std::time::Instant::now(), show_op(op)));
-        let res = if let Op::Cfg { uuid, ron } = op {
-            self.runner = make_runner(*uuid, *ron);
+        let res = if let Op::Cfg { uuid, ron, app } = op {
+            self.runner = make_runner(*uuid, *ron, *app);
             self.ron = *ron;
             "ok".to_string()
         } else if let Op::UnitRoundtrip = op {
@@ -989,7 +1012,8 @@ fn shuffle<T>(rng: &mut Rng, v: &mut Vec<T>) {
 
 /// Round-trip case: a small world A with reference structure, then the fixed probe tail.
 fn gen_rt(rng: &mut Rng) -> Vec<Op> {
-    let mut ops = vec![Op::Cfg { uuid: rng.chance(1, 3), ron: rng.chance(1, 2) }];
+    let uuid = rng.chance(1, 3);
+    let mut ops = vec![Op::Cfg { uuid, ron: rng.chance(1, 2), app: uuid && rng.chance(1, 2) }];
     let mut nlog = 0usize;
     let mut live: Vec<usize> = Vec::new();
     let mut dead: Vec<usize> = Vec::new();
@@ -1126,7 +1150,7 @@ fn gen_load_recs(rng: &mut Rng, idx: u64) -> Vec<Rec> {
 /// History case: random ops on both worlds, generated against the live harness state.
 fn gen_hist(rng: &mut Rng, maxlen: usize, h: &mut Harness, out: &mut String) {
     let uuid = rng.chance(3, 20);
-    h.step(&Op::Cfg { uuid, ron: rng.chance(1, 2) }, out);
+    h.step(&Op::Cfg { uuid, ron: rng.chance(1, 2), app: uuid && rng.chance(1, 2) }, out);
     let len = rng.range(3, maxlen.max(3) as u64) as usize;
     let w_maint = *rng.pick(&[3u32, 6, 10]);
     let w_del = *rng.pick(&[2u32, 4, 7]);
